@@ -90,7 +90,9 @@ def gen_7bit(rng):
     lines = [rng.choice(TEXTS) for _ in range(rng.randint(1, 4))]
     body = ('\r\n'.join(lines) + rng.choice(['', '\r\n'])).encode('utf-8')
     enc = rng.choice(['none', 'base64', 'quopri'])
-    return {'kind': '7bit', 'body': body.hex(), 'encoder': enc}
+    # what the header claims about the body (the body is what it is: raw text, possibly 8-bit, whatever the label says)
+    cte = rng.choice(['8bit', '8bit', '8bit', None, '7bit', 'binary', 'quoted-printable', 'Quoted-Printable', 'base64', 'BASE64'])
+    return {'kind': '7bit', 'body': body.hex(), 'encoder': enc, 'cte': cte}
 
 
 def cases(tier, seed, phase):
@@ -211,7 +213,10 @@ def run_case(case, model):
         import email
         from email.encoders import encode_base64, encode_quopri
         body = bytes.fromhex(case['body'])
-        hdr = b'From: a@b\r\nMIME-Version: 1.0\r\nContent-Type: text/plain; charset="utf-8"\r\nContent-Transfer-Encoding: 8bit\r\n\r\n'
+        cte = case.get('cte', '8bit')
+        hdr = b'From: a@b\r\nMIME-Version: 1.0\r\nContent-Type: text/plain; charset="utf-8"\r\n' + \
+            (b'Content-Transfer-Encoding: ' + cte.encode() + b'\r\n' if cte else b'') + b'\r\n'
+        tags.append('cte=' + str(cte).lower())
         env = Envelope('s@x', ['r@y'])
         env.parse(hdr + body)
         enc = {'none': None, 'base64': encode_base64, 'quopri': encode_quopri}[case['encoder']]
@@ -257,11 +262,12 @@ def run_case(case, model):
                 hd, msg = env.flatten()
                 if any(b > 127 for b in msg):
                     hits.append(hit('c20.7bit-not-ascii', 'body still holds 8-bit data after encode_7bit', observed=msg.hex()))
-                else:
+                elif eight or case.get('cte', '8bit') in ('8bit', '7bit', 'binary', None):
+                    # (an ASCII body under a label that claims an encoding is left alone: there is nothing to convert, and nothing to decode)
                     back = email.message_from_bytes(hd + msg).get_payload(decode=True)
                     norm = lambda b: re.sub(rb'\r?\n', b'\n', b).rstrip(b'\n')
                     if back is None or norm(back).decode('utf-8', 'replace') != norm(body).decode('utf-8', 'replace'):
                         hits.append(hit('c20.7bit-decode-differs', '7-bit body does not decode to the same text',
                                         observed=None if back is None else back.hex(), expected=body.hex()))
-        key = ('7bit', case['body'], case['encoder'])
+        key = ('7bit', case['body'], case['encoder'], case.get('cte', '8bit'))
     return CaseResult(mismatch, hits, key, tags)
